@@ -16,14 +16,30 @@ class BQLSemantics:
     def null(self, value):
         return None
 
+    def _invalid(self, value):
+        # Report a literal that matches the grammar but does not have a
+        # valid value as a syntax error located on the literal itself.
+        tokenizer = self._ctx.tokenizer
+        endpos = tokenizer.pos
+        pos = endpos - len(value)
+        line = tokenizer.line_info(pos).line
+        return ParseError(tatsu.infos.ParseInfo(tokenizer, 'literal', pos, endpos, line, []))
+
     def integer(self, value):
-        return int(value)
+        try:
+            return int(value)
+        except ValueError as exc:
+            # Python limits the length of strings converted to int.
+            raise self._invalid(value) from exc
 
     def decimal(self, value):
         return decimal.Decimal(value)
 
     def date(self, value):
-        return datetime.datetime.strptime(value, '%Y-%m-%d').date()
+        try:
+            return datetime.datetime.strptime(value, '%Y-%m-%d').date()
+        except ValueError as exc:
+            raise self._invalid(value) from exc
 
     def string(self, value):
         return value[1:-1]
